@@ -83,7 +83,9 @@ type queuedHeaderFrame struct {
 	streamID  uint32
 	endStream bool
 	priority  http2.PriorityParam
-	chunks    [][]byte
+	// encode produces the header block fragments, it is called when the frame is sent.
+	encode func() ([][]byte, error)
+	chunks [][]byte
 }
 
 func (f *queuedHeaderFrame) StreamID() uint32 {
@@ -95,6 +97,13 @@ func (*queuedHeaderFrame) flowControlSize() int {
 }
 
 func (f *queuedHeaderFrame) send(dest *http2.Framer) error {
+	if f.chunks == nil {
+		chunks, err := f.encode()
+		if err != nil {
+			return err
+		}
+		f.chunks = chunks
+	}
 	if err := dest.WriteHeaders(http2.HeadersFrameParam{
 		StreamID:      f.streamID,
 		BlockFragment: f.chunks[0],
@@ -131,7 +140,9 @@ func (f *queuedHeaderFrame) String() string {
 type queuedPushPromiseFrame struct {
 	streamID  uint32
 	promiseID uint32
-	chunks    [][]byte
+	// encode produces the header block fragments, it is called when the frame is sent.
+	encode func() ([][]byte, error)
+	chunks [][]byte
 }
 
 func (f *queuedPushPromiseFrame) StreamID() uint32 {
@@ -143,6 +154,13 @@ func (*queuedPushPromiseFrame) flowControlSize() int {
 }
 
 func (f *queuedPushPromiseFrame) send(dest *http2.Framer) error {
+	if f.chunks == nil {
+		chunks, err := f.encode()
+		if err != nil {
+			return err
+		}
+		f.chunks = chunks
+	}
 	if err := dest.WritePushPromise(http2.PushPromiseParam{
 		StreamID:      f.streamID,
 		PromiseID:     f.promiseID,
